@@ -819,7 +819,7 @@ struct C05 : Property
 			}
 			else if (op.kind == "patch")
 			{
-				static const char *patches[17] = {
+				static const char *patches[19] = {
 				    "[{\"op\":\"add\",\"path\":\"/k0\",\"value\":[1,{\"z\":2}]}]",
 				    "[{\"op\":\"remove\",\"path\":\"/k0\"}]",
 				    "[{\"op\":\"replace\",\"path\":\"/k1\",\"value\":\"r\"},{\"op\":\"remove\",\"path\":\"/k2\"}]",
@@ -831,6 +831,8 @@ struct C05 : Property
 				    "[{\"op\":\"remove\",\"path\":\"\"}]",
 				    "[{\"op\":\"move\",\"from\":\"/k1\",\"path\":\"/k1\"},{\"op\":\"copy\",\"from\":\"/k0\",\"path\":\"/k0/x\"}]",
 				    "[]",
+				    "[{\"op\":\"move\",\"from\":\"/k0\",\"path\":\"/k1/zz/q\"}]",
+				    "[{\"op\":\"move\",\"from\":\"/0\",\"path\":\"/9\"}]",
 				    "[{\"op\":\"copy\",\"from\":\"/k1/k0\",\"path\":\"/k1\"}]",
 				    "[{\"op\":\"copy\",\"from\":\"/k0\",\"path\":\"\"}]",
 				    "[{\"op\":\"move\",\"from\":\"/k1/k0\",\"path\":\"/k1\"},{\"op\":\"copy\",\"from\":\"/0/0\",\"path\":\"/0\"}]",
@@ -846,7 +848,7 @@ struct C05 : Property
 					skipped = true; // move/copy inside a document that shares nodes between branches can close a cycle: JSON patch is defined on trees
 				else
 				{
-					std::string t = std::string(patches[op.arg(2) % 17]) + std::string(1, '\0');
+					std::string t = std::string(patches[op.arg(2) % 19]) + std::string(1, '\0');
 					disarm_faults(); // the patch document itself is built without faults
 					struct json_tokener *tok = new_tok(32, 0);
 					ExactBuf b(t);
